@@ -2,6 +2,7 @@ package verifsim
 
 import (
 	"encoding/base64"
+	"encoding/json"
 	"fmt"
 )
 
@@ -96,6 +97,9 @@ func Generate(profile string, seed uint64, tier string) (*Scenario, error) {
 	case "C12c":
 		sc.Property = "C12"
 		genC12c(g, sc, tier)
+	case "C09":
+		sc.Property = "C09"
+		genC09(g, sc, tier)
 	case "C08":
 		sc.Property = "C08"
 		genC08(g, sc, tier)
@@ -407,6 +411,8 @@ func Execute(sc *Scenario) *Verdict {
 	switch sc.Profile {
 	case "C01", "C02", "C03", "C06", "C12":
 		return RunStoreScenario(sc)
+	case "C09":
+		return RunHTTPScenario(sc)
 	case "C08", "C10", "C17", "C18":
 		return RunJobScenario(sc)
 	case "C05", "C02c", "C12c", "C13c", "C19c":
@@ -1112,5 +1118,122 @@ func genC18(g *G, sc *Scenario, tier string) {
 			spec["sinkFailAt"] = g.Range(1, 3)
 		}
 		sc.Ops = append(sc.Ops, Op{K: "runFix", S: "job1", M: spec})
+	}
+}
+
+// genC09: HTTP full syncs (start / batch / end with matching, missing and foreign ids), plain
+// writes, lease expiry by clock advance anywhere, and a fullsync job on the same dataset.
+func genC09(g *G, sc *Scenario, tier string) {
+	sc.Datasets = []string{"ds", "jsrc"}
+	lease := g.PickInt([]int{5, 30, 120})
+	sc.Knobs["leaseTimeoutNs"] = int64(lease) * 1_000_000_000
+	sc.Knobs["web.batchSize"] = int64(g.PickInt([]int{1, 2, 10}))
+	c := g.baseStoreCfg(tier)
+	c.Datasets = []string{"ds"}
+	c.Pool = poolNames(MkE, "e", g.Range(3, 6))
+	c.PNested, c.PTxn, c.PRestart = 0, 0, 0
+	c.NoPlainObjects = true
+	c.MaxBatch = g.Range(1, 3)
+	m := NewModel()
+	m.Create("ds")
+	m.Create("jsrc")
+	ents := func() []Ent {
+		e := g.batch(c, m, "ds")
+		m.Batch("ds", e)
+		return e
+	}
+	advance := func() Op {
+		// around the lease: well before, just before, just after, long after
+		ms := g.PickInt([]int{1, lease * 500, lease*1000 - 1, lease*1000 + 1, lease * 2000})
+		return Op{K: "advance", N: ms}
+	}
+	withJob := g.P(0.4)
+	if withJob {
+		var js []Ent
+		for _, id := range c.Pool[:g.Range(1, len(c.Pool))] {
+			js = append(js, g.freshEnt(c, id))
+		}
+		sc.Ops = append(sc.Ops, Op{K: "batch", DS: "jsrc", Ents: js})
+		cfg := jobConfig("syncjob", map[string]any{"Type": "DatasetSource", "Name": "jsrc"}, map[string]any{"Type": "DatasetSink", "Name": "ds"}, nil, "fullsync", g.Range(1, 3))
+		sc.Ops = append(sc.Ops, Op{K: "addJob", M: cfg})
+	}
+	// some initial content
+	for k := g.Range(0, 2); k > 0; k-- {
+		sc.Ops = append(sc.Ops, Op{K: "post", DS: "ds", Ents: ents()})
+	}
+	ids := []string{"syncA", "syncB"}
+	client := func() []Op {
+		// one client's view of a sync: start, 0-3 batches, end; with deviations
+		var ops []Op
+		id := g.Pick(ids)
+		ops = append(ops, Op{K: "post", DS: "ds", Ents: ents(), M: map[string]any{"start": true, "id": id}})
+		for k := g.Range(0, 3); k > 0; k-- {
+			x := g.r.Float64()
+			bid := id
+			switch {
+			case x < 0.15:
+				bid = "foreign"
+			case x < 0.25:
+				bid = ""
+			}
+			ops = append(ops, Op{K: "post", DS: "ds", Ents: ents(), M: map[string]any{"id": bid}})
+			if g.P(0.3) {
+				ops = append(ops, advance())
+			}
+		}
+		if g.P(0.8) {
+			eid := id
+			if g.P(0.1) {
+				eid = "foreign"
+			}
+			ops = append(ops, Op{K: "post", DS: "ds", Ents: ents(), M: map[string]any{"id": eid, "end": true}})
+		}
+		return ops
+	}
+	for rd := g.Range(1, 3); rd > 0; rd-- {
+		x := g.r.Float64()
+		switch {
+		case withJob && x < 0.4:
+			op := Op{K: "jobsync", S: "syncjob"}
+			if g.P(0.7) {
+				// another client acts while the job's sync is running
+				var inner []Op
+				switch g.Intn(4) {
+				case 0:
+					inner = append(inner, Op{K: "post", DS: "ds", Ents: ents()}) // plain write
+				case 1:
+					inner = append(inner, Op{K: "post", DS: "ds", Ents: ents()}, advance())
+				case 2:
+					inner = append(inner, Op{K: "post", DS: "ds", Ents: ents(), M: map[string]any{"start": true, "id": "syncA"}})
+				default:
+					inner = append(inner, advance())
+				}
+				b, _ := json.Marshal(inner)
+				var innerAny []any
+				_ = json.Unmarshal(b, &innerAny)
+				op.M = map[string]any{"during": []any{map[string]any{"at": g.Pick([]string{"pipeline.full.afterStart", "pipeline.full.afterBatch", "pipeline.full.beforeEnd"}), "hit": 1, "ops": innerAny}}}
+			}
+			sc.Ops = append(sc.Ops, op)
+		case x < 0.55:
+			// two clients interleaved
+			a, b := client(), client()
+			for len(a) > 0 || len(b) > 0 {
+				if len(b) == 0 || (len(a) > 0 && g.P(0.5)) {
+					sc.Ops = append(sc.Ops, a[0])
+					a = a[1:]
+				} else {
+					sc.Ops = append(sc.Ops, b[0])
+					b = b[1:]
+				}
+			}
+		default:
+			sc.Ops = append(sc.Ops, client()...)
+		}
+		if g.P(0.4) {
+			sc.Ops = append(sc.Ops, Op{K: "post", DS: "ds", Ents: ents()})
+		}
+		if g.P(0.4) {
+			sc.Ops = append(sc.Ops, advance())
+		}
 	}
 }
